@@ -101,9 +101,11 @@ def _fitted(E, crit="mselin"):
 
 @contract(F + "::PiecewiseTreeRegressor._predict_reglin", "C09")
 class PredictReglin(Contract):
+    variants = ["real", "int"]         # dtype of the batch: integer features are evaluated like the same real numbers
+
     def setup(self, E, v):
         s = _fitted(E)
-        return dict(self=s, X=E.nd("X", (E.size("n", 0), s.fields["$d"])), check_input=True)
+        return dict(self=s, X=E.nd("X", (E.size("n", 0), s.fields["$d"]), v), check_input=True)
 
     def requires(self, E, a):
         return _leaves_wf(E, a.self)
@@ -308,7 +310,7 @@ class Fit(_c02.PiecewiseTreeFit):
 contract(_c02.PiecewiseTreeFit.key, "C09")(Fit)
 
 META = dict(
-    level="proof", assumptions=["A1", "A2", "A6", "A7", "A9"], lean_files=["lemmas/Counting.lean"],
+    level="proof", assumptions=["A1", "A2", "A6", "A7", "A9"], lean_files=["lemmas/Counting.lean", "lemmas/Sums.lean"],
     trusted=["LinearRegressorCriterion.create / node_beta are compiled LAPACK code: ASSUMED to build a criterion over exactly the given rows and to write ITS "
              "least-squares coefficients (features then intercept); _fit_reglin (the real loop over the leaves) and predict_leaves are PROVED against the "
              "scikit-learn facts stated as preconditions (a node is a leaf iff both children ids are <= its id; n_leaves counts them; decision_path has one "
